@@ -121,6 +121,96 @@ reg(
     "property-based testing (Hypothesis) against analytic error bounds and call-point logging",
 )
 
+reg(
+    "C06",
+    "Generated contractive linear / mildly non-linear coupled systems (2-5 disciplines, unequal sizes, several SCCs, weak and "
+    "self-coupled disciplines) are solved by every MDA class and composition (Jacobi, Gauss-Seidel, Newton-Raphson, quasi-Newton, "
+    "GS-Newton, sequential, MDAChain with each inner MDA) under every acceleration, relaxation, scaling, warm start and listing "
+    "order; the returned data are re-executed by a plain-numpy twin (fixed-point defect <= 2 q rho), compared with the exact "
+    "solution and pairwise between configurations. Sampling of systems and settings; 4 open findings excluded by class.",
+    "Trusted: numpy, the twin model of vlib/gen/coupled.py (contraction factor q <= 0.3 by construction). Budget exhaustion of "
+    "SciPy root finders and degenerate MINPACK steps are counted as inconclusive, never as violations.",
+    "property-based metamorphic/differential testing (Hypothesis) against an exact numpy solution of generated systems",
+)
+reg(
+    "C07",
+    "On the same generated systems (MDA converged to 1e-14), 1-3 accumulated linearisation requests over random input/output "
+    "subsets are made under every mode (auto/direct/adjoint), matrix type, LU option and linear solver, for Jacobi, Gauss-Seidel, "
+    "Newton and MDAChain, with weakly coupled, self-coupled and residual/state-form disciplines; every returned block must have "
+    "the right shape and equal the closed-form implicit-function expression assembled densely by the harness (1e-9; 1e-7 Krylov).",
+    "Trusted: numpy.linalg.solve on well-conditioned systems (cond <= (1+q)/(1-q)), the twin's exact partials. Krylov breakdowns "
+    "and logged non-convergence are inconclusive for that solver only.",
+    "property-based differential testing (Hypothesis) against the closed-form implicit-function derivative",
+)
+reg(
+    "C08",
+    "Exhaustive: every digraph with self-loops on n <= 3 nodes x every listing order (plus duplicated names), in the thorough tier "
+    "also all 65536 graphs on 4 nodes x all 24 orders (a seeded slice in quick); random graphs on 5-9 nodes. CouplingStructure's "
+    "sequence, groups, stages and coupling sets are judged against the harness' own boolean reachability closure; the same "
+    "realisations with linear contractive semantics are executed by MDAChain / MDOChain / MDOInitializationChain and compared "
+    "with numpy.linalg.solve for every listing order.",
+    "Trusted: numpy, the harness closure (vlib/gen/graphs.py). Coupling-set checks use the narrowest/widest reading of the "
+    "docstrings (they coincide in about half of the cases). exhaustive_n_le_3 is set only when the enumeration completed.",
+    "exhaustive enumeration (n <= 3, n = 4 in thorough) + Hypothesis random graphs against a reachability-closure oracle",
+)
+reg(
+    "C09",
+    "Drawn trees of chain/parallel nodes over up to 9 polynomial disciplines (exact dense/sparse/operator partials, pass-through, "
+    "in-place and overwritten variables), wrapped as MDOChain / MDOParallelChain / MDOAdditiveChain / MDAChain (both "
+    "chain_linearize settings), receive 1-4 successive execute/linearize requests (all Jacobians or cumulative subsets); every "
+    "returned block (shape, zero blocks for independent pairs, values to 1e-10) is compared with a harness forward-mode "
+    "accumulation along the execution order. Sampling; 3 open findings (in/out and overwritten variables) excluded by class.",
+    "Trusted: numpy, the forward-mode reference (vlib/gen/graphs.py); the code under test accumulates in reverse mode. "
+    "Exactness for all points follows for polynomial disciplines only as far as sampled points separate polynomials.",
+    "property-based differential testing (Hypothesis compositions and request histories) against forward-mode accumulation",
+)
+reg(
+    "C12",
+    "For each drawn configuration (SLSQP / L-BFGS-B / NLOPT_COBYLA / LHS / fullfact / CustomDOE, one or two disciplines, backup at "
+    "each call / iteration / both, file absent or holding an earlier crashed run's prefix loaded or erased, normalised or not, "
+    "budget 5-15) a forked reference run records every database store, then EVERY crash point k = 1..K is enumerated: a forked "
+    "child dies with os._exit(17) at the start of its k-th discipline execution; the backup must load and equal the prefix "
+    "snapshot the policy implies, and a restarted child must not re-execute stored points, keep the loaded entries, report an "
+    "optimum at least as good, and (un-normalised, counters kept) reproduce the uninterrupted history entry by entry.",
+    "Crash points are process deaths at the start of a discipline execution (as the property quantifies), not inside an HDF5 "
+    "write. Reusing a file with load=False, erase=False is outside the statement. Trusted: os.fork semantics, h5py.",
+    "fault enumeration: every crash point of Hypothesis-drawn configurations, forked children, prefix/restart oracles",
+    category="fault_enumeration",
+)
+reg(
+    "C14",
+    "26 DOE algorithms (SciPy, OpenTURNS, pyDOE, Diagonal, Morris, Custom) x generated bounded spaces (mixed float/integer, sizes > 1, "
+    "each component in its own disjoint slot so that a column can only satisfy its own bounds) x sample counts at the boundaries of "
+    "each count formula x seeds, through compute_doe and library.execute: shape, box membership, integrality, count rule, unit "
+    "samples in [0,1], samples == lb + u (ub - lb) with rounding, database keys == samples in order, bit-identical regeneration "
+    "under the same (effective) seed. Sampling; 3 open findings.",
+    "Third-party preconditions restrict the generator (SciPy Lloyd needs d >= 2, n >= d+2, ...). Bound tolerance 100 eps max(1,|lb|,|ub|) "
+    "(the design space's own); measured maximum excess 1 ulp.",
+    "property-based testing (Hypothesis) with an affine-image reference and seed-determinism (metamorphic) oracle",
+)
+reg(
+    "C17",
+    "On generated coupled systems with objective/constraints chosen among discipline outputs: MDF at x against the closed form "
+    "f(x, y*(x)) and its implicit-function total derivative, IDF at (x, y*(x)) and perturbed targets against the twins' values and "
+    "partials, consistency constraints (value, normalisation, Jacobian, vanishing at y*), MDF's Jacobian rebuilt from IDF's own "
+    "functions, design-space contents and order, IDF rejecting a missing coupling, DisciplinaryOpt on acyclic systems, every inner "
+    "MDA; thorough tier: strictly convex QPs solved by SLSQP under each formulation against the exact active-set optimum.",
+    "Trusted: numpy, vlib/gen/coupled.py twins, the harness QP solver (active-set enumeration). BiLevel is not covered. IDF is held "
+    "to what the code documents (all couplings, weak included).",
+    "property-based differential testing (Hypothesis) between formulations and against closed-form values/derivatives",
+)
+reg(
+    "C19",
+    "SciPy and OpenTURNS distribution families (incl. truncations, affine transformations and by-name generic classes) with "
+    "harness-written closed-form moments, supports and cdfs: mean/std/support/range, cdf against the reference, cdf o icdf and "
+    "icdf o cdf round trips, samples inside the support and within Kolmogorov distance 4/sqrt(n), cross-library agreement; "
+    "ParameterSpaces mixing random vectors and deterministic variables: (un)transform against the reference cdf / affine map, round "
+    "trips, 1-D vs 2-D, compute_samples per column; EmpiricalStatistics against numpy on the same data.",
+    "Trusted: math, scipy.special.betainc/gammainc (reference only), numpy. RNGs re-seeded from a drawn integer per case. "
+    "OpenTURNS CompositeDistribution is a discretisation (1e-4 slack); icdf o cdf asserted for p in [1e-4, 1-1e-4]. 1 open finding (SciPy beta.ppf NaN).",
+    "property-based testing (Hypothesis) against closed-form laws, round trips and cross-library differential comparison",
+)
+
 NOT_YET: dict[str, str] = {}
 
 
